@@ -30,7 +30,9 @@ def v_jsonclass(s):
     return 'ok' if s.strip().startswith('{') else 'err'
 def v_first(s):
     return v_class(s.split(' ; ')[0])
-VIEWS = {'jsonclass': v_jsonclass, 'first': v_first, 'okfull': v_okfull, 'full': v_full, 'result': v_result, 'class': v_class, 'kind': v_kind,
+def v_tmrange(s):
+    return ' '.join(s.strip().split(' ')[:4])
+VIEWS = {'tmrange': v_tmrange, 'jsonclass': v_jsonclass, 'first': v_first, 'okfull': v_okfull, 'full': v_full, 'result': v_result, 'class': v_class, 'kind': v_kind,
          'opt_c05': pick(0, 'pre', 'post'), 'opt_c06': pick(0, 1, 'fold', 'idem', 'nodes', 'pur'), 'opt_c10': pick('chk'),
          'chk': pick(0), 'chk_exec': pick(0, 1), 'chkbool': pick(0, 1, 'rp')}
 
@@ -162,5 +164,19 @@ def law_stable(lines, exp):
         if e.startswith('unstable'):
             yield (k, line, e, 'identical result every time (stable …)')
 
-LAWS = {'stable': law_stable, 'json_same': law_json_same, 'c05': law_c05, 'c06': law_c06, 'c10': law_c10, 'c10_opt': law_c10_opt, 'c11': law_c11,
+def law_c10_dcall(lines, exp):
+    for k, (line, e) in enumerate(zip(lines, exp)):
+        if e.startswith('err WrongParameterCount'):
+            yield (k, line, e, 'a call within the registered arity with arguments of the documented kinds never answers WrongParameterCount')
+
+def law_tmrange(lines, exp):
+    for k, (line, e) in enumerate(zip(lines, exp)):
+        if not e.startswith('viol 0 '):
+            first = ''
+            if ' first ' in e:
+                try: first = bytes.fromhex(e.split(' first ')[1].strip()).decode()
+                except Exception: pass
+            yield (k, line, e + (' (' + first + ')' if first else ''), 'viol 0: every date / millisecond / combination of the range encodes exactly and decodes to its components')
+
+LAWS = {'tmrange': law_tmrange, 'c10_dcall': law_c10_dcall, 'stable': law_stable, 'json_same': law_json_same, 'c05': law_c05, 'c06': law_c06, 'c10': law_c10, 'c10_opt': law_c10_opt, 'c11': law_c11,
         'same': law_expect('same'), 'ok': law_ok, 'no_crash': law_no_crash}
